@@ -357,8 +357,11 @@ class FunctionReference:
         if cluster_name is not None:
             self._cluster_name = cluster_name
         else:
+            # A stub for an external function has no cluster of its own (None = default cluster)
             self._cluster_name = (
-                memento_fn.cluster_name if memento_fn is not None else None
+                memento_fn.cluster_name
+                if memento_fn is not None and not external
+                else None
             )
 
         # Get module
